@@ -54,9 +54,6 @@ def _closes(path, what: str) -> bool:
                 if callee.fn.name.endswith('close') and len(
                         callee.fn.node.args.args) == 1:
                     return True
-        if event.kind == 'call' and isinstance(node, ast.Call) and \
-                rules.value_text(path, index, node.func) == '%s.close' % what:
-            return True
         if event.kind == 'getattr' and isinstance(node, ast.Attribute) and \
                 node.attr == 'close' and rules.value_text(path, index, node.value) == what:
             rest = path.events[index + 1:]
